@@ -7,7 +7,12 @@ BASELINE = ("cd /repo && env -u CARDUTIL_VERIF /venv/bin/python -m pytest -ra -q
             "--continue-on-collection-errors")
 
 TB = ("Trusted base: TLC 1.8 (tla2tools + CommunityModules), the TLA+ text under /verif/spec, the projection of "
-      "observables to JSON in harness/ (bytes -> ints, no interpretation). ")
+      "observables to JSON in harness/ (bytes -> ints, no interpretation). The harness varies dimensions that the "
+      "specification deliberately does not mention - the environment of a call (library debug logging, warnings as "
+      "errors, a 6-digit decimal context, a daylight-saving time zone, python -O), the kind of argument and file "
+      "object (re-used bytearray, non-dict mappings, str subclasses; pipes, gzip files, files behind a header, "
+      "yielding Python-level files), object lifetime, and four threads working on separate objects at once - every "
+      "such history is judged by the same clauses. ")
 
 # pid -> (technique, level text, level note, design ref)
 CLAIMS = {
@@ -18,16 +23,17 @@ CLAIMS = {
             "and each is replayed on the real Block1014 (quick: sampled first writes x all 3037 next lengths; thorough: "
             "all 2025 first writes, one-call and split); recorded histories with concrete adversarial bytes are "
             "validated against the spec by TLC. Bounded: histories longer than 2 writes are sampled.",
-            TB + "Wrapped file object is io.BytesIO.", "3 C04"),
+            TB + "Unbounded histories of the integer skeleton: Apalache inductive invariant (BlockIntInd).", "3 C04"),
     'C05': ("TLA+ spec (Unblocker/Blocks) model-checked by TLC incl. termination; TLC-enumerated read behaviours and "
             "fault cases replayed on Unblock1014/unblock_1014; recorded read sequences trace-validated by TLC",
             "TLC exhaustively checks that the refill/deliver machine refines the abstract read (slice of the payload "
             "stream, read-all gives the rest) and terminates, and the one-shot laws (inversion up to fill, every cut and "
             "trailer corruption refused) at small P; at P=1012 every (first read, next size 0..2025) behaviour on a whole "
             "and a cut-short input and every cut length / trailer byte value are enumerated by TLC and replayed on the "
-            "real code; recorded read sequences over arbitrary inputs are validated by TLC with concrete bytes.",
-            TB + "Wrapped file object is io.BytesIO; read(0) written explicitly and negative sizes are outside the "
-            "statement.", "3 C05"),
+            "real code; recorded read sequences over arbitrary inputs are validated by TLC with concrete bytes. Unbounded: "
+            "Apalache discharges an inductive invariant of the implementation-shaped model UnblockIntInd (all file "
+            "lengths, request sizes, histories), and real executions are replayed through that model (Trace_UnblockInd).",
+            TB + "read(0) written explicitly and negative sizes are outside the statement.", "3 C05"),
     'C03': ("TLA+ spec (Vbs/Blocks) model-checked by TLC; recorded writer/reader executions with concrete bytes "
             "trace-validated by TLC (Trace_Vbs)",
             "TLC exhaustively checks the implementation-shaped writer lifecycle and the reader at small P (layout = "
@@ -35,7 +41,7 @@ CLAIMS = {
             "bytes, every __next__ outcome) is decided by TLC from the concrete bytes: quick = boundary and sampled "
             "single-record lengths x blocked/unblocked x class/function API + biased multi-record lists; thorough = every "
             "length 1..MAX+2.",
-            TB + "File objects are io.BytesIO; MAX_VBS_RECORD_LENGTH is read from config.py at run time.", "3 C03"),
+            TB + "MAX_VBS_RECORD_LENGTH is read from config.py at run time.", "3 C03"),
     'C09': ("TLA+ spec (Vbs Truncate action) model-checked by TLC; every cut offset of generated real files read with "
             "the real reader and trace-validated by TLC",
             "TLC exhaustively checks TruncInv (a cut file reads as exactly the complete records, then "
@@ -115,7 +121,8 @@ CLAIMS = {
             "event is judged against that instance's own specification state. Files of 1..400 heterogeneous messages x 3 "
             "codecs x {VBS,1014} x {packaged, generated} configuration are written and read back by the real code; TLC "
             "judges file bytes (Frame/Finals of the encoded messages) and every yielded dict (Reading of its record).",
-            TB + "File objects are io.BytesIO.", "3 C06"),
+            TB + "Instance isolation is checked at call granularity (IpmMulti schedules) and at thread granularity "
+            "(four threads on separate objects).", "3 C06"),
     'C10': ("TLA+ spec of error location (Trace_Ipm with loc: record number = yielded + 1, context = prefix + record / "
             "CtxOk for framing faults) evaluated by TLC on the exhaustively enumerated fault matrix",
             "Files of n = 1..4 records x every position k x 9 fault kinds (truncated record, oversized length, "
